@@ -72,6 +72,17 @@ PROPS = {
                                      'standard chunks of the container that appear during full iteration are skipped, custom chunks must appear in order'],
         floor={'quick': 300, 'thorough': 1000},
     ),
+    'C07': dict(
+        runs=[dict(src='c07_write_determinism.c', ldflags='-Wl,--wrap=time,--wrap=gettimeofday')],
+        level='exploration',
+        rule=('case = (container, encoding, channels, sample type, N, signal, metadata on/off); the file written by ONE call with the clock pinned is '
+              'compared byte for byte with 9 variants: 1-frame calls, small odd sizes, B-1/B/B+1, > staging buffer, mixed item/frame sizes, '
+              'SFC_UPDATE_HEADER_NOW after every call, auto header update, a forked fresh process, and a different wall clock (PEAK timestamp and MAT5 '
+              'date text masked). distinct = hash(format, ch, type, N, job)'),
+        assumptions=COMMON_ASSUME + ['time()/gettimeofday() are interposed at link time (--wrap) in the monitor binary; the library objects are unmodified',
+                                     'PEAK timestamps are located by the marker outside the audio data region reported by the hook'],
+        floor={'quick': 300, 'thorough': 1000},
+    ),
 }
 
 NOT_APPLICABLE = {}
